@@ -144,9 +144,11 @@ Proof.
     destruct m; try (unfold solve_compare; rewrite Ol, ?Or; reflexivity).
     destruct op; try (unfold solve_compare; rewrite Ol, ?Or; reflexivity).
     destruct r; try (unfold solve_compare; rewrite Ol, ?Or; reflexivity).
-    assert (E0 : d f0 = d' f0) by (apply Hr; left; reflexivity).
-    destruct m; try (unfold solve_compare; rewrite Ol, ?Or; reflexivity).
-    unfold solve_compare. rewrite E, ?E0. reflexivity.
+    + assert (E0 : d f0 = d' f0) by (apply Hr; left; reflexivity).
+      destruct m; try (unfold solve_compare; rewrite Ol, ?Or; reflexivity).
+      unfold solve_compare. rewrite E, ?E0. reflexivity.
+    + (* str(f) == null, fix D27 *)
+      unfold solve_compare. rewrite E. reflexivity.
   - (* EField *)
     assert (E : d f = d' f) by (apply Hl; left; reflexivity).
     destruct op; try (unfold solve_compare; rewrite Ol, ?Or; reflexivity).
